@@ -1,6 +1,7 @@
 import Driver.Enc
 import Driver.Prim
 import Driver.Disk
+import Driver.Fs
 
 def main (args : List String) : IO UInt32 := do
   match args with
@@ -9,5 +10,6 @@ def main (args : List String) : IO UInt32 := do
   | ["disk", "mem"] => Driver.lineLoop Driver.Disk.memStep none; return 0
   | ["disk", "file"] => Driver.lineLoop Driver.Disk.fileStep none; return 0
   | ["disk", "spec"] => Driver.lineLoop Driver.Disk.specStep none; return 0
+  | ["fs", "ref"] => Driver.lineLoop Driver.Fs.refStep GooseVerif.Model.Fs.Ref.empty; return 0
   | ["wt"] => Driver.lineLoop Driver.Prim.wtStep (); return 0
   | _ => IO.eprintln "usage: driver <enc|prim|wt>"; return 2
